@@ -23,6 +23,8 @@ from fim.slivers.capacities_labels import Labels, Capacities
 from fim.view_only_dict import ViewOnlyDict
 import fim.graph.abc_property_graph as apg
 
+from fim.graph.networkx_property_graph_disjoint import NetworkXGraphImporterDisjoint
+
 LEVEL = 'other'
 
 # ---- published vocabularies (pinned; compared with the rules file on every run)
@@ -244,11 +246,14 @@ def make(name, prog):
         cost = 60
 
         def inputs(self, g):
-            return [g.atom('site1'), g.atom('site2')], {}
+            return [g.atom('site1'), g.atom('site2'), g.pick(['shared store', 'one graph per store'], 'in-memory back end')], {}
 
-        def body(self, h, s1, s2):
+        def body(self, h, s1, s2, backend):
             topo.fresh_world(h)
-            t = h.call(ExperimentTopology)
+            if backend == 'shared store':
+                t = h.call(ExperimentTopology)
+            else:
+                t = h.call(ExperimentTopology, importer=h.call(NetworkXGraphImporterDisjoint))
             snaps = []
             prog(h, t, s1, s2, lambda: snaps.append(take(h, t)))
             views = dict(
